@@ -135,31 +135,31 @@ func (e *c06Env) get(path string, q url.Values) (int, []byte) {
 	return rec.Code, rec.Body.Bytes()
 }
 
-type xPrefix struct {
+type c06XPrefix struct {
 	Prefix string `xml:"Prefix"`
 }
-type xListBucket struct {
+type c06XListBucket struct {
 	IsTruncated           bool    `xml:"IsTruncated"`
 	NextMarker            *string `xml:"NextMarker"`
 	NextContinuationToken *string `xml:"NextContinuationToken"`
 	Contents              []struct {
 		Key string `xml:"Key"`
 	} `xml:"Contents"`
-	CommonPrefixes []xPrefix `xml:"CommonPrefixes"`
+	CommonPrefixes []c06XPrefix `xml:"CommonPrefixes"`
 }
-type xVersionEntry struct {
+type c06XVersionEntry struct {
 	Key       string `xml:"Key"`
 	VersionID string `xml:"VersionId"`
 }
-type xListVersions struct {
-	IsTruncated         bool            `xml:"IsTruncated"`
-	NextKeyMarker       *string         `xml:"NextKeyMarker"`
-	NextVersionIDMarker *string         `xml:"NextVersionIdMarker"`
-	Versions            []xVersionEntry `xml:"Version"`
-	DeleteMarkers       []xVersionEntry `xml:"DeleteMarker"`
-	CommonPrefixes      []xPrefix       `xml:"CommonPrefixes"`
+type c06XListVersions struct {
+	IsTruncated         bool               `xml:"IsTruncated"`
+	NextKeyMarker       *string            `xml:"NextKeyMarker"`
+	NextVersionIDMarker *string            `xml:"NextVersionIdMarker"`
+	Versions            []c06XVersionEntry `xml:"Version"`
+	DeleteMarkers       []c06XVersionEntry `xml:"DeleteMarker"`
+	CommonPrefixes      []c06XPrefix       `xml:"CommonPrefixes"`
 }
-type xListUploads struct {
+type c06XListUploads struct {
 	IsTruncated        bool    `xml:"IsTruncated"`
 	NextKeyMarker      *string `xml:"NextKeyMarker"`
 	NextUploadIDMarker *string `xml:"NextUploadIdMarker"`
@@ -167,9 +167,9 @@ type xListUploads struct {
 		Key      string `xml:"Key"`
 		UploadID string `xml:"UploadId"`
 	} `xml:"Upload"`
-	CommonPrefixes []xPrefix `xml:"CommonPrefixes"`
+	CommonPrefixes []c06XPrefix `xml:"CommonPrefixes"`
 }
-type xListParts struct {
+type c06XListParts struct {
 	IsTruncated          bool    `xml:"IsTruncated"`
 	NextPartNumberMarker *string `xml:"NextPartNumberMarker"`
 	Parts                []struct {
